@@ -2272,9 +2272,16 @@ func (d *Data) newLabel(v dvid.VersionID) (uint64, error) {
 func (d *Data) newLabels(v dvid.VersionID, numLabels uint64) (begin, end uint64, err error) {
 	if numLabels <= 0 {
 		err = fmt.Errorf("cannot request %d new labels, must be 1 or more", numLabels)
+		return
 	}
 	d.mlMu.Lock()
 	defer d.mlMu.Unlock()
+
+	// The span must not wrap around: the label counters only move forward.
+	if d.NextLabel+numLabels < d.NextLabel || d.MaxRepoLabel+numLabels < d.MaxRepoLabel {
+		err = fmt.Errorf("cannot request %d new labels, not enough labels left", numLabels)
+		return
+	}
 
 	// Increment and store.
 	if d.NextLabel != 0 {
